@@ -178,12 +178,30 @@ class Pools:
 
 
 # ------------------------------------------------------------------ implementation side
+def build_case(case):
+    """the operator that is indexed: the tree itself; the tree with a (true) annotation declared on it; or the slice
+    A[s1, s2] taken - through __getitem__ - from an annotated parent (two-level indexing)"""
+    import cola
+    two = case.get("two")
+    if two:
+        A = T.build(case["tree"]["a"])
+        A = getattr(cola, two["ann"])(A)
+        return A[slice(*two["s1"]), slice(*two["s2"])]
+    A = T.build(case["tree"])
+    if case.get("ann"):
+        A = getattr(cola, case["ann"])(A)
+    return A
+
+
 def run_queries(case):
     """observations of the implementation on every query of one case (public API: A[...], .to_dense(), @)"""
-    t = case["tree"]
     out = []
     try:
-        A = T.build(t)
+        A = build_case(case)
+        try:
+            case["tself"] = bool(A.T is A)     # transpose() returns the operator itself (isa(SelfAdjoint), real)
+        except Exception:
+            case["tself"] = False
     except Exception as e:
         return [dict(cls="build_raised", err=type(e).__name__ + ": " + str(e)[:200]) for _ in case["queries"]]
     for qd in case["queries"]:
@@ -306,12 +324,13 @@ def coq_np(w):
 
 def coq_flags(fl):
     b = lambda x: "true" if x else "false"
-    return f"(mkflags {b(fl['row'])} {b(fl['dotA'])} {b(fl['cpu'])} {b(fl['empty'])})"
+    return f"(mkflags {b(fl['row'])} {b(fl['dotA'])} {b(fl['cpu'])} {b(fl['empty'])} {b(fl.get('tself'))})"
 
 
 def coq_case(case, obs, nps, fl, keep):
     qs = ";\n   ".join("{| qi := %s; qo := %s; qn := %s |}" % (coq_ix(case["queries"][k]["ix"]), coq_obs(obs[k], case["queries"][k]), coq_np(nps[k]))
                        for k in keep)
+    fl = dict(fl, tself=case.get("tself", False))
     return ("{| ce := " + T.coq(case["tree"]) + f"; cm := {case['m']}; cn := {case['n']}; cfl := {coq_flags(fl)};\n  cqs := [{qs}] |}}")
 
 
